@@ -12,6 +12,8 @@
 package e5
 
 import (
+	"encoding/hex"
+	"reflect"
 	"bytes"
 	"fmt"
 	"io"
@@ -189,7 +191,9 @@ func (e *Engine) Run(ops []string, res *report.Result) *report.Failure {
 		return e4.CanonSnapshot(rr.Body.Bytes())
 	}
 	var shape []string
+	handles := map[string]*tclient.Proxy{}
 	for i, op := range ops {
+		curHandle := ""
 		res.Ops++
 		op = e.E4.Subst(op)
 		w := strings.Fields(op)
@@ -294,6 +298,48 @@ func (e *Engine) Run(ops []string, res *report.Result) *report.Failure {
 					return cl.RemoveToxic(&tclient.ToxicOptions{ProxyName: w[2], ToxicName: w[3]}) != nil
 				}
 			}
+		case "h":
+			// a proxy handle the caller keeps across operations
+			line = op
+			hn := ""
+			if len(w) > 2 {
+				hn = w[2]
+			}
+			curHandle = hn
+			switch w[1] {
+			case "fetch":
+				act = func() bool {
+					p, err := cl.Proxy(w[3])
+					if err == nil {
+						handles[hn] = p
+					}
+					return err != nil
+				}
+			case "enable", "disable", "save", "delete":
+				act = func() bool {
+					p := handles[hn]
+					if p == nil {
+						return true
+					}
+					switch w[1] {
+					case "enable":
+						return p.Enable() != nil
+					case "disable":
+						return p.Disable() != nil
+					case "save":
+						return p.Save() != nil
+					}
+					return p.Delete() != nil
+				}
+			case "set":
+				act = func() bool {
+					if p := handles[hn]; p != nil {
+						p.Listen, p.Upstream = w[3], w[4]
+						return false
+					}
+					return true
+				}
+			}
 		case "cli":
 			var argv []string
 			switch w[1] {
@@ -378,6 +424,12 @@ func (e *Engine) Run(ops []string, res *report.Result) *report.Failure {
 			b2 = "1"
 		}
 		got := fmt.Sprintf("failed=%s n=%d ; %s | %s", b2, len(reqs), strings.Join(rs, " ; "), after)
+		if w[0] == "h" {
+			got += " H " + handleStr(handles[curHandle])
+			if of := handleOracle(i, fail, w, handles[curHandle], before, after, failed); of != nil {
+				return of
+			}
+		}
 		res.Count("op:" + w[0] + " " + w[1])
 		res.Count(fmt.Sprintf("last-status:%d", lastStatus))
 		// ---- model-free oracles of C19
@@ -418,6 +470,59 @@ func cliAttrs(text string) []string {
 		out = append(out, "-a", kv.K+"="+v)
 	}
 	return out
+}
+
+func hexOrDash(x string) string {
+	if x == "" {
+		return "-"
+	}
+	return hex.EncodeToString([]byte(x))
+}
+
+func handleStr(p *tclient.Proxy) string {
+	if p == nil {
+		return "-"
+	}
+	b := func(x bool) string {
+		if x {
+			return "1"
+		}
+		return "0"
+	}
+	created := reflect.ValueOf(p).Elem().FieldByName("created").Bool()
+	return fmt.Sprintf("%s|%s|%s|%s|%s", hexOrDash(p.Name), hexOrDash(p.Listen), hexOrDash(p.Upstream), b(p.Enabled), b(created))
+}
+
+// handleOracle (C19): Enable / Disable / Delete on a proxy handle that report success have
+// had that effect on the server — whatever the handle believed before; and they fail when
+// the proxy does not exist.
+func handleOracle(i int, fail func(int, string, string, string, string, string, string) *report.Failure, w []string, h *tclient.Proxy, before, after string, failed bool) *report.Failure {
+	if h == nil || failed {
+		return nil
+	}
+	field := func(snap string, k int) string {
+		f := strings.SplitN(e4.ProxyEntry(snap, h.Name), "|", 5)
+		if len(f) == 5 {
+			return f[k]
+		}
+		return ""
+	}
+	switch w[1] {
+	case "enable", "disable":
+		want := "1"
+		if w[1] == "disable" {
+			want = "0"
+		}
+		if got := field(after, 3); got != want {
+			return fail(i, "oracle", "C19", "enabled="+want, "enabled="+got+" (\"\" = no such proxy)",
+				"Proxy."+strings.Title(w[1])+"() reported success but the server's proxy is not in that state", "e5:C19:handle-"+w[1]+"-no-effect")
+		}
+	case "delete":
+		if e4.ProxyEntry(after, h.Name) != "" {
+			return fail(i, "oracle", "C19", "deleted", "still there", "Proxy.Delete() reported success but the proxy still exists", "e5:C19:handle-delete-no-effect")
+		}
+	}
+	return nil
 }
 
 // keptOracle: settings the caller does not specify keep their server-side value.
